@@ -40,6 +40,7 @@ type act struct {
 	PropAccept bool   `json:"propaccept"`
 	Path       []int  `json:"path"`
 	Via        int    `json:"via"`
+	Peer       int    `json:"peer"` // handover only: who hands the copy to the victim (9 origin, 8 uninvolved peer, i = i-th forwarder)
 }
 
 // layout of a serialised announcement frame
@@ -94,7 +95,11 @@ type scene struct {
 }
 
 // node ids: 1 = V, 2..L+1 = R1..RL, L+2 = O, L+3 = X, L+4 = O2
-func newScene(L int, rng *rand.Rand) *scene {
+func newScene(L int, rng *rand.Rand) *scene { return newSceneLinked(L, rng, nil) }
+
+// newSceneLinked: the victim additionally has links of its own to the routers `also` (mesh ids: forwarders that are
+// not next to it on the chain, the origin), i.e. the honest chain is not the only way between them.
+func newSceneLinked(L int, rng *rand.Rand, also []int) *scene {
 	n := L + 4
 	var edges []mesh.Edge
 	lab := func() m.SwitchLabel { return m.SwitchLabel(1 + rng.Intn(16000)) }
@@ -103,6 +108,9 @@ func newScene(L int, rng *rand.Rand) *scene {
 	}
 	edges = append(edges, mesh.Edge{A: 1, B: L + 3, LA: lab(), LB: lab()})     // V - X
 	edges = append(edges, mesh.Edge{A: L + 1, B: L + 4, LA: lab(), LB: lab()}) // RL (or V when L=0) - O2
+	for _, id := range also {
+		edges = append(edges, mesh.Edge{A: 1, B: id, LA: lab(), LB: lab()}) // V - a router named in the announcement
+	}
 	ms, err := mesh.New(n, edges, mesh.Opts{})
 	if err != nil {
 		panic(err)
@@ -368,6 +376,8 @@ func (s *scene) forge(a act, rng *rand.Rand, off int) (data []byte, from *world.
 		// record d twice: the upper copy gets the lower copy as what hangs below it
 		dup := reencode(chain[a.Depth-1], chain[a.Depth-1].raw, nil)
 		return withAppendix(fa, s.ownRecord(fa, under(a.Depth, dup), rng)), from, ""
+	case "handover":
+		return s.handover(a, rng)
 	case "reorder":
 		// records d and d+1 swapped
 		var below []byte
@@ -379,6 +389,99 @@ func (s *scene) forge(a act, rng *rand.Rand, off int) (data []byte, from *world.
 		return withAppendix(fa, s.ownRecord(fa, under(a.Depth, upper), rng)), from, ""
 	}
 	panic("op " + a.Op)
+}
+
+// peerNode maps a model number to the node (9 origin, 8 the uninvolved peer, i = i-th forwarder).
+func (s *scene) peerNode(p int) *world.Node {
+	switch {
+	case p == 9:
+		return s.o
+	case p == 8:
+		return s.x
+	case p >= 1 && p <= s.L:
+		return s.ms.Node(p + 1)
+	}
+	panic(fmt.Sprintf("peer %d on a chain of %d", p, s.L))
+}
+
+func (s *scene) peerName(p int) string {
+	switch p {
+	case 9:
+		return "the origin itself"
+	case 8:
+		return "an uninvolved peer"
+	}
+	return fmt.Sprintf("forwarder %d", p)
+}
+
+// also lists the links the victim needs besides those to forwarder 1 and the uninvolved peer for a handover case: one
+// to the router that hands the copy over, and (seeded) to further routers the announcement names.
+func handoverLinks(L int, a act, rng *rand.Rand) []int {
+	if a.Op != "handover" {
+		return nil
+	}
+	set := map[int]bool{}
+	if a.Peer == 9 {
+		set[L+2] = true
+	} else if a.Peer >= 2 && a.Peer <= L {
+		set[a.Peer+1] = true
+	}
+	if rng.Intn(2) == 0 {
+		set[L+2] = true
+	}
+	if L >= 2 && rng.Intn(2) == 0 {
+		set[3+rng.Intn(L-1)] = true
+	}
+	var out []int
+	for id := 3; id <= L+2; id++ {
+		if set[id] {
+			out = append(out, id)
+		}
+	}
+	return out
+}
+
+// handover: a copy of the older (sometimes the newer) announcement whose appendix is the genuine suffix a.Depth..L of
+// its chain - nothing altered, every signature verifies - arrives over the victim's link to a.Peer. Where that peer IS
+// the outermost signer (the origin when nothing is attached) the copy is the very frame that router sent to the victim
+// when the announcement was flooded, so the case is an honest announcement over a second way through the mesh.
+func (s *scene) handover(a act, rng *rand.Rand) (data []byte, from *world.Node, note string) {
+	src, which := s.fa, "announcement"
+	if rng.Intn(3) == 0 {
+		src, which = s.fb, "newer announcement"
+	}
+	from = s.peerNode(a.Peer)
+	outer := "nobody (no record attached)"
+	if a.Depth <= s.L {
+		outer = fmt.Sprintf("forwarder %d", a.Depth)
+	}
+	carried := fmt.Sprintf("with the genuine records of forwarders %d..%d", a.Depth, s.L)
+	if a.Depth > s.L {
+		carried = "without any record"
+	}
+	note = fmt.Sprintf("%s %s, handed over by %s; outermost signer: %s", which, carried, s.peerName(a.Peer), outer)
+	honest := (a.Depth <= s.L && a.Peer == a.Depth) || (a.Depth == s.L+1 && a.Peer == 9)
+	if honest && a.Depth > 1 {
+		sa, err := s.ms.Decode(src)
+		if err != nil {
+			panic(err)
+		}
+		for _, fl := range s.held {
+			h, err := s.ms.Decode(fl.Data)
+			if err != nil || !h.IsAnn || fl.From != from || fl.To != s.v || h.Origin != sa.Origin || h.Stamp != sa.Stamp || len(h.Hops) != s.L-a.Depth+1 {
+				continue
+			}
+			return append([]byte(nil), fl.Data...), from, note + " (the frame that router sent to the victim itself)"
+		}
+		panic(fmt.Sprintf("scene L=%d: %s did not send its own copy of the announcement to the victim", s.L, s.peerName(a.Peer)))
+	}
+	p := layout(src)
+	chain := decodeChain(src[p.apxFrom:])
+	var apx []byte
+	if a.Depth <= len(chain) {
+		apx = chain[a.Depth-1].raw
+	}
+	return withAppendix(src, apx), from, note
 }
 
 type result struct {
@@ -402,7 +505,7 @@ func tableOf(n *world.Node) []m.RoutingTableEntry {
 
 // deliver runs one case against a fresh scene.
 func runCase(c *vf.Ctx, L int, a act, rng *rand.Rand, off int) (result, string, *scene) {
-	s := newScene(L, rng)
+	s := newSceneLinked(L, rng, handoverLinks(L, a, rng))
 	if a.Op == "replayold" {
 		from := s.o
 		if L > 0 {
@@ -665,7 +768,7 @@ func deepCase(c *vf.Ctx, total, tamper int, rng *rand.Rand) map[string]any {
 func main() { vf.Main("C08", "model_checking", run) }
 
 func run(c *vf.Ctx) {
-	c.Rule("M: TLC enumerates 18 operators x depth x chain length 0..4 (91 cases) and checks the code's verification steps against the property-level accept rule. R: every case applied to real announcement bytes emitted by real routers (chains 0..4; the adversary is the real forwarder next to the victim re-signing its own record with its real key, or a wire attacker), 3 random byte/bit choices per flip case (thorough: every byte of body, origin signature and appendix of a 3-hop announcement, 2 bits each). T: seeded campaigns on chains up to 6 (thorough 20). distinct = distinct (operator, depth, real chain length, byte offset)")
+	c.Rule("M: TLC enumerates 22 operators x depth x chain length 0..4 (x delivering peer for handover: a genuine suffix of the chain handed over by the origin / an inner forwarder / an uninvolved peer over a link of its own to the victim) and checks the code's verification steps against the property-level accept rule. R: every case applied to real announcement bytes emitted by real routers (chains 0..4; the adversary is the real forwarder next to the victim re-signing its own record with its real key, or a wire attacker), 3 random byte/bit choices per flip case (thorough: every byte of body, origin signature and appendix of a 3-hop announcement, 2 bits each). T: seeded campaigns on chains up to 6 (thorough 20), and a handover campaign (chains 1..6, victims with extra links to the origin and to inner forwarders). distinct = distinct (operator, depth, real chain length, byte offset)")
 	c.Assume("Ed25519 unforgeable (also tested by the flips)", "the adversary holds only the key of the forwarder adjacent to the victim")
 
 	mc, err := c.TLC("GossipAuth", "GossipAuth_MC.cfg", vf.TLCOpts{Workers: 1, Coverage: true, Timeout: 5 * time.Minute})
@@ -700,7 +803,7 @@ func run(c *vf.Ctx) {
 			judge(c, a, r, note, a.Len)
 			c.Distinct(fmt.Sprintf("%s|%d|%d|%v|%s", a.Op, a.Depth, a.Len, a.Seen, note))
 			events = append(events, map[string]any{"ev": "case", "len": a.Len, "op": a.Op, "depth": a.Depth, "seen": a.Seen, "accepted": r.Accepted, "path": r.Path,
-				"via": a.Via, "nexthop": r.NextHop, "unchanged": r.Unchanged, "genuine": r.Genuine})
+				"via": a.Via, "nexthop": r.NextHop, "unchanged": r.Unchanged, "genuine": r.Genuine, "peer": a.Peer})
 			if ci%17 == 0 && k == 0 {
 				c.Sample(map[string]any{"case": a, "detail": note, "observed": r})
 			}
@@ -772,11 +875,48 @@ func run(c *vf.Ctx) {
 			via = 8
 		}
 		events = append(events, map[string]any{"ev": "case", "len": L, "op": op, "depth": a.Depth, "seen": a.Seen, "accepted": r.Accepted, "path": r.Path,
-			"via": via, "nexthop": r.NextHop, "unchanged": r.Unchanged, "genuine": r.Genuine})
+			"via": via, "nexthop": r.NextHop, "unchanged": r.Unchanged, "genuine": r.Genuine, "peer": 0})
 		if r.Panic {
 			c.Violation(vf.Key("panic", op), fmt.Sprintf("%s on a chain of %d: worker panic", op, L), a, nil)
 		}
 	}
+	// ---- T-handover: the victim has links of its own to routers the announcement names (the origin, forwarders further
+	// down the chain); any of its peers hands it a copy carrying a genuine suffix of the chain. Chains stay below 7 so that
+	// the forwarders' numbers never meet 7 / 8 / 9 (stranger, uninvolved peer, origin).
+	nh, nhAcc := 0, 0
+	for k := 0; k < c.Pick(40, 500); k++ {
+		L := 1 + rng.Intn(6)
+		a := act{Name: "case", Len: L, Op: "handover", Seen: rng.Intn(3) == 0, Depth: 1 + rng.Intn(L+1)}
+		if rng.Intn(2) == 0 {
+			a.Depth = 1 // the whole chain, as forwarder 1 delivers it
+		}
+		switch x := rng.Intn(10); {
+		case x < 4:
+			a.Peer = 9
+		case x < 5:
+			a.Peer = 8
+		case x < 7 && a.Depth <= L:
+			a.Peer = a.Depth // the outermost signer of what is attached: honest
+		default:
+			a.Peer = 1 + rng.Intn(L)
+		}
+		r, note, _ := runCase(c, L, a, rng, -1)
+		c.Distinct(fmt.Sprintf("handover|%d|%d|%d|%v", L, a.Depth, a.Peer, a.Seen))
+		nh++
+		if r.Accepted {
+			nhAcc++
+		}
+		events = append(events, map[string]any{"ev": "case", "len": L, "op": a.Op, "depth": a.Depth, "seen": a.Seen, "accepted": r.Accepted, "path": r.Path,
+			"via": a.Peer, "nexthop": r.NextHop, "unchanged": r.Unchanged, "genuine": r.Genuine, "peer": a.Peer, "detail": note})
+		if r.Panic {
+			c.Violation(vf.Key("panic", a.Op), fmt.Sprintf("%s on a chain of %d: worker panic", a.Op, L), a, nil)
+		}
+	}
+	if nhAcc == 0 {
+		c.Broken("handover campaign: not one copy was accepted (those delivered by their outermost signer must be)")
+	}
+	c.Stage("T-handover", map[string]any{"deliveries": nh, "accepted": nhAcc})
+	c.Logf("T-handover: %d copies handed over by the origin / an inner forwarder / an uninvolved peer, %d accepted", nh, nhAcc)
 	// ---- deep chains: around the hundred layers the parser is willing to walk
 	ndeep, deepAcc := 0, 0
 	for _, total := range []int{40, 98, 99, 100, 101, 130} {
